@@ -348,8 +348,13 @@ def snap_diff(snap, g, tolerate_new_node_keys=False):
     for (u, v, d0), (_, _, d1) in zip(edges, cur_edges):
         if d0 != d1:
             return f"attributes of edge {(u, v)} changed: {d0} -> {d1}"
-    if gattrs != dict(g.graph):
-        return f"graph attributes changed: {gattrs} -> {dict(g.graph)}"
+    cur_g = dict(g.graph)
+    if tolerate_new_node_keys:
+        # the same tolerance at graph level: keys that did not exist before the
+        # call are scratch, not "a chemically meaningful attribute"
+        cur_g = {k: v for k, v in cur_g.items() if k in gattrs}
+    if gattrs != cur_g:
+        return f"graph attributes changed: {gattrs} -> {cur_g}"
     return None
 
 
